@@ -455,4 +455,49 @@ theorem dM_paired (n : Int) (hp : fieldOf dpM n ∈ msgFields dpM) (hc : fieldOf
     FieldPaired dCur dPrev (fieldOf dcM n) (fieldOf dpM n) :=
   Or.inl ⟨dpM, dcM, by decide, by decide, by decide, hp, hc, hn⟩
 
+/-! ### the ALIAS family of the enum-value rules: witness `alPrev → alCur…`
+    proto2 `al.proto`, package `al`:
+      enum Mode { option allow_alias = true; OFF = 0; ON = 1; LEGACY = 2; ENABLED = 1; OLD = 2;
+                  ANCIENT = 2; X = 3; Y = 3; }
+      message Holder { enum Inner { option allow_alias = true; A = 0; B = 5; C = 5; } }
+    versus (`alCurSome`) the same with number 1 gone and only ONE of its two names reserved
+    (`reserved "ON";`), alias OLD of number 2 gone (LEGACY, ANCIENT stay), number 3 gone with BOTH
+    names and the number reserved (`reserved "X", "Y"; reserved 3;`), `Inner` without number 5 and
+    `reserved "C"; reserved 6 to 8;` (a range NEXT TO the number).  `alCurAll` differs from
+    `alCurSome` in reserving both names of 1 (`reserved "ON", "ENABLED";`). -/
+def alMode (vals : List EnumValue) (rn : List Name) (rr : List Range) : Enum :=
+  { enm "Mode" vals with reservedNames := rn, reservedRanges := rr }
+def alInner (vals : List EnumValue) (rn : List Name) (rr : List Range) : Enum :=
+  { enm "Inner" vals with reservedNames := rn, reservedRanges := rr }
+def alFile (mode inner : Enum) : File :=
+  { path := "al.proto", pkg := ["al"], syn := .proto2, opts := [],
+    locs := [[5, 0], [5, 0, 2, 0], [5, 0, 2, 0, 2], [5, 0, 2, 1], [5, 0, 2, 1, 2], [5, 0, 2, 2], [5, 0, 2, 2, 2],
+             [5, 0, 2, 3], [5, 0, 2, 3, 2], [5, 0, 2, 4], [5, 0, 2, 4, 2], [5, 0, 2, 5], [5, 0, 2, 5, 2],
+             [5, 0, 2, 6], [5, 0, 2, 6, 2], [5, 0, 2, 7], [5, 0, 2, 7, 2], [4, 0], [4, 0, 4, 0]],
+    messages := [.mk { info "Holder" with enums := [inner] } []],
+    enums := [mode], services := [], extensions := [] }
+
+def alPrev : Schema := [alFile
+  (alMode [⟨"OFF", 0⟩, ⟨"ON", 1⟩, ⟨"LEGACY", 2⟩, ⟨"ENABLED", 1⟩, ⟨"OLD", 2⟩, ⟨"ANCIENT", 2⟩, ⟨"X", 3⟩, ⟨"Y", 3⟩] [] [])
+  (alInner [⟨"A", 0⟩, ⟨"B", 5⟩, ⟨"C", 5⟩] [] [])]
+def alCurSome : Schema := [alFile
+  (alMode [⟨"OFF", 0⟩, ⟨"LEGACY", 2⟩, ⟨"ANCIENT", 2⟩] ["ON", "X", "Y"] [(3, 3)])
+  (alInner [⟨"A", 0⟩] ["C"] [(6, 8)])]
+def alCurAll : Schema := [alFile
+  (alMode [⟨"OFF", 0⟩, ⟨"LEGACY", 2⟩, ⟨"ANCIENT", 2⟩] ["ON", "ENABLED", "X", "Y"] [(3, 3)])
+  (alInner [⟨"A", 0⟩] ["C"] [(6, 8)])]
+
+theorem alCurSome_wf : WF alCurSome := WF_of_wfB _ (by decide)
+theorem alCurAll_wf : WF alCurAll := WF_of_wfB _ (by decide)
+def alpMode : FlatEnum := enumOf alPrev ["al", "Mode"]
+def alcMode : FlatEnum := enumOf alCurSome ["al", "Mode"]
+def alpInner : FlatEnum := enumOf alPrev ["al", "Holder", "Inner"]
+def alcInner : FlatEnum := enumOf alCurSome ["al", "Holder", "Inner"]
+theorem alpMode_mem : alpMode ∈ allEnums alPrev := by decide
+theorem alcMode_mem : alcMode ∈ allEnums alCurSome := by decide
+theorem alMode_name : alcMode.fullName = alpMode.fullName := by decide
+theorem alpInner_mem : alpInner ∈ allEnums alPrev := by decide
+theorem alcInner_mem : alcInner ∈ allEnums alCurSome := by decide
+theorem alInner_name : alcInner.fullName = alpInner.fullName := by decide
+
 end BufProofs.Breaking.W
